@@ -347,3 +347,107 @@ Proof.
           with (Rbar_mult (Finite (sg^2 * / (1 - Phi (- mu / sg)))) (Finite 0)) by (simpl; f_equal; field; lra).
         apply is_lim_scal_l. by apply normal_pdf_s_lim.
 Qed.
+
+(* second moment and standard deviation of the truncated Gaussian *)
+Lemma lim_t_exp_msq : is_lim (fun t => t * exp (- t^2)) p_infty 0.
+Proof.
+  apply (is_lim_le_le_loc (fun _ => 0) (fun t => / t)).
+  - exists 1 => t Ht. have Hp := exp_pos (- t^2). split; first by apply Rmult_le_pos; lra.
+    have E : exp (t^2) * exp (- t^2) = 1.
+    { rewrite -exp_plus. have -> : t^2 + - t^2 = 0 by ring. apply exp_0. }
+    have H1 : t^2 <= exp (t^2) by have := exp_ineq1_le (t^2); lra.
+    have Ht2 : 0 < t^2 by nra.
+    have H2 : exp (- t^2) <= / t^2.
+    { apply (Rmult_le_reg_l (exp (t^2))); first by apply exp_pos.
+      rewrite E. have := Rinv_r (t^2) ltac:(lra). have Hi : 0 < / t^2 by apply Rinv_0_lt_compat. nra. }
+    have -> : / t = t * / t^2 by field; lra.
+    apply Rmult_le_compat_l; lra.
+  - apply is_lim_const.
+  - replace (Finite 0) with (Rbar_inv p_infty) by done. apply is_lim_inv; [apply is_lim_id | done].
+Qed.
+
+Lemma lim_y_normal_pdf mu sg : 0 < sg -> is_lim (fun y => (y + mu) * normal_pdf_s mu sg y) p_infty 0.
+Proof.
+  move=> Hs. have S2 := sqrt2_pos. have Hq := sqrt2pi_pos.
+  set a := / (sqrt 2 * sg). have Ha : 0 < a by apply Rinv_0_lt_compat, Rmult_lt_0_compat.
+  have E2 : sqrt 2 * sqrt 2 = 2 by apply sqrt_sqrt; lra.
+  (* (y + mu) pdf = c1 * (u exp(-u^2)) + c2 * exp(-u^2) with u = (y - mu) a *)
+  apply is_lim_ext with
+    (fun y => / (sqrt (2 * PI) * sg) * (/ a) * ((y * a + - mu * a) * exp (- (y * a + - mu * a)^2))
+              + 2 * mu * normal_pdf_s mu sg y).
+  - move=> y. rewrite /normal_pdf_s.
+    have -> : (y * a + - mu * a)^2 = (y - mu)^2 / (2 * sg^2).
+    { rewrite /a. have -> : (y * / (sqrt 2 * sg) + - mu * / (sqrt 2 * sg))^2 = (y - mu)^2 / ((sqrt 2 * sqrt 2) * sg^2)
+        by field; split; apply Rgt_not_eq; lra.
+      by rewrite E2. }
+    have -> : - ((y - mu)^2 / (2 * sg^2)) = - (y - mu)^2 / (2 * sg^2) by field; lra.
+    rewrite /a. field. repeat split; apply Rgt_not_eq; lra.
+  - replace (Finite 0) with (Finite (/ (sqrt (2 * PI) * sg) * (/ a) * 0 + 2 * mu * 0)) by (f_equal; ring).
+    apply: is_lim_plus'.
+    + apply is_lim_scal_l with (a := / (sqrt (2 * PI) * sg) * / a) (l := 0).
+      apply (is_lim_comp (fun t => t * exp (- t^2)) (fun y => y * a + - mu * a) p_infty 0 p_infty).
+      * apply lim_t_exp_msq.
+      * by apply lim_lin.
+      * exists 0 => y _. discriminate.
+    + apply is_lim_scal_l with (a := 2 * mu) (l := 0). by apply normal_pdf_s_lim.
+Qed.
+
+Definition TG_second_prim (mu sg y : R) : R :=
+  (mu^2 + sg^2) * TG_cdf mu sg y - sg^2 * ((y + mu) * normal_pdf_s mu sg y) / (1 - Phi (- mu / sg)).
+Lemma TG_second_prim_derive mu sg y : 0 < sg -> Phi (- mu / sg) < 1 ->
+  is_derive (TG_second_prim mu sg) y (y^2 * exp (TG_lp mu sg y)).
+Proof.
+  move=> Hs HP. have Hq : 0 < 1 - Phi (- mu / sg) by lra. have Hq2 := sqrt2pi_pos.
+  rewrite /TG_second_prim. evar_last.
+  - apply: is_derive_minus.
+    + apply: is_derive_scal. by apply TG_cdf_derive.
+    + apply: (is_derive_scal_l (fun t => sg^2 * ((t + mu) * normal_pdf_s mu sg t))).
+      apply: is_derive_scal. rewrite /normal_pdf_s. auto_derive; [done | reflexivity].
+  - rewrite TG_lp_density // /truncnormal_pdf_s /normal_pdf_s.
+    rewrite /scal /= /mult /= /minus /plus /opp /=.
+    replace (exp (- ((y + - mu) * ((y + - mu) * 1)) * / (2 * (sg * (sg * 1)))))
+      with (exp (- ((y - mu) * ((y - mu) * 1)) / (2 * (sg * (sg * 1))))) by (f_equal; field; lra).
+    field. repeat split; apply Rgt_not_eq; lra.
+Qed.
+
+Theorem TG_second_moment mu sg : 0 < sg -> Phi (- mu / sg) < 1 ->
+  is_lim (fun b => RInt (fun y => y^2 * exp (TG_lp mu sg y)) 0 b) p_infty
+         (mu^2 + sg^2 + sg * mu * (phi (mu / sg) / (1 - Phi (- mu / sg)))).
+Proof.
+  move=> Hs HP. have Hq : 0 < 1 - Phi (- mu / sg) by lra. have Hq2 := sqrt2pi_pos.
+  apply is_lim_ext with (fun b => TG_second_prim mu sg b - TG_second_prim mu sg 0).
+  - move=> b. symmetry. apply is_RInt_unique. apply: (is_RInt_derive (TG_second_prim mu sg)).
+    + move=> y _. by apply TG_second_prim_derive.
+    + move=> y _. apply: continuous_mult.
+      * apply: ex_derive_continuous. auto_derive. done.
+      * apply: ex_derive_continuous. rewrite /TG_lp. auto_derive. done.
+  - have E0 : TG_second_prim mu sg 0 = - (sg * mu * (phi (mu / sg) / (1 - Phi (- mu / sg)))).
+    { rewrite /TG_second_prim TG_cdf_zero /normal_pdf_s /phi.
+      have -> : - (0 - mu)^2 / (2 * sg^2) = - (mu / sg)^2 / 2 by field; lra.
+      field. repeat split; apply Rgt_not_eq; lra. }
+    rewrite E0.
+    replace (Finite (mu^2 + sg^2 + sg * mu * (phi (mu / sg) / (1 - Phi (- mu / sg)))))
+      with (Finite (((mu^2 + sg^2) * 1 - sg^2 * / (1 - Phi (- mu / sg)) * 0)
+                    - - (sg * mu * (phi (mu / sg) / (1 - Phi (- mu / sg))))))
+      by (f_equal; field; lra).
+    apply: is_lim_minus'; last by apply is_lim_const.
+    rewrite /TG_second_prim. apply: is_lim_minus'.
+    + apply is_lim_scal_l with (a := mu^2 + sg^2) (l := 1). by apply TG_cdf_lim.
+    + apply is_lim_ext with (fun y => (sg^2 * / (1 - Phi (- mu / sg))) * ((y + mu) * normal_pdf_s mu sg y)).
+      * move=> y. field. lra.
+      * apply is_lim_scal_l with (a := sg^2 * / (1 - Phi (- mu / sg))) (l := 0). by apply lim_y_normal_pdf.
+Qed.
+
+(* get_mean_and_std of the truncated Gaussian: std^2 = second moment - mean^2 (where the reported radicand is
+   non-negative) *)
+Theorem TG_std_from_moments mu sg : 0 < sg -> Phi (- mu / sg) < 1 ->
+  let F := phi (mu / sg) / (1 - Phi (- mu / sg)) in
+  0 <= 1 - mu / sg * F - F^2 ->
+  (TG_std mu sg)^2 = (mu^2 + sg^2 + sg * mu * F) - (TG_mean mu sg)^2.
+Proof.
+  move=> Hs HP F HF. rewrite /TG_std /TG_mean -/F.
+  have -> : (sg * sqrt (1 - mu / sg * F - F^2))^2 = sg^2 * (sqrt (1 - mu / sg * F - F^2))^2 by ring.
+  rewrite -(Rsqr_pow2 (sqrt _)) Rsqr_sqrt //.
+  have -> : sg * phi (mu / sg) / (1 - Phi (- mu / sg)) = sg * F by rewrite /F; field; lra.
+  field. lra.
+Qed.
